@@ -16,6 +16,12 @@
     out i         processSequence: router.Out(event)
     commit i      output calls Commit → finalize(event, true, true)
     finOther      finalize of a child or time-out event: returns before any pool call
+    detachProc    the processor leaves the stream (processEvent returns: `busyActionsTotal == 0`, i.e. no
+                  action holds an event, and the event it worked on is finished)
+    attachProc    a processor joins the stream again
+
+  `take` and `propagate` need the processor on the stream: the next event and the stream time-out reach
+  the holding action only through the processor that waits in blockGet.
 
   `fins i` records the finalize flag words (bit1 notifyInput, bit0 backEvent) in order — what the
   harness observes at the `pl.finalize` trace point. Core Lean only.
@@ -39,14 +45,18 @@ structure Ev where
 structure St where
   cap : Nat
   inUse : Nat := 0          -- events out of the pool
+  attached : Bool := true   -- a processor is on the stream
   evs : List Ev := []
   deriving DecidableEq, Repr
 
 inductive Op
   | get (i : Nat) | decodeErr (i : Nat) | refuse (i : Nat) | stream (i : Nat) | take (i : Nat)
   | discard (i : Nat) | hold (i : Nat) | propagate (i : Nat) | spawn (i : Nat) | out (i : Nat) | commit (i : Nat)
-  | finOther
+  | finOther | detachProc | attachProc
   deriving DecidableEq, Repr
+
+/-- the event is in the hands of the processor (being worked on, or held by one of its actions) -/
+def needsProc (e : Ev) : Bool := e.pc == .taken || e.pc == .held
 
 def init (cap : Nat) (kinds : List Kind) : St := { cap := cap, evs := kinds.map ({ kind := · }) }
 
@@ -78,7 +88,7 @@ def step? (s : St) : Op → Option St
     | none => none
   | .take i =>
     match s.evs[i]? with
-    | some e => if e.pc = .streamed then some (setEv s i { e with pc := .taken }) else none
+    | some e => if e.pc = .streamed ∧ s.attached = true then some (setEv s i { e with pc := .taken }) else none
     | none => none
   | .discard i =>
     match s.evs[i]? with
@@ -94,7 +104,7 @@ def step? (s : St) : Op → Option St
     | none => none
   | .propagate i =>
     match s.evs[i]? with
-    | some e => if e.pc = .held then some (setEv s i { e with pc := .resumed }) else none
+    | some e => if e.pc = .held ∧ s.attached = true then some (setEv s i { e with pc := .resumed }) else none
     | none => none
   | .spawn i =>
     match s.evs[i]? with
@@ -113,6 +123,8 @@ def step? (s : St) : Op → Option St
       else none
     | none => none
   | .finOther => some s
+  | .detachProc => if s.evs.countP needsProc = 0 then some { s with attached := false } else none
+  | .attachProc => some { s with attached := true }
 
 /-- the event holds a pool slot -/
 def live : Ev → Bool
